@@ -21,12 +21,14 @@ pub mod wmodel;
 pub mod asmgen;
 #[path = "c12_cfi.rs"]
 pub mod cfigen;
+#[path = "c12_corpus.rs"]
+mod corpus;
 
 pub fn info() -> PropInfo {
     PropInfo {
         id: "C12",
         level: "exploration",
-        rule: "Inputs x: (seeds) the gimli::write-built seed sections of gen::seeds for all 64 encodings; (wmodel) seeded random gimli::write models: 1-3 units, random DIE trees, every writable attribute value kind with boundary values, expressions with forward/backward branches, typed operations and entry references, line programs with random header parameters / files with info / mid-sequence set_address, range and location lists; (asm.info) hand-assembled units (crate::asm) using the forms gimli::write cannot emit: strx*/addrx*/rnglistx/loclistx, every DW_RLE_*/DW_LLE_* kind and the legacy lists with and without a unit base, data/ref forms of every width, implicit_const, indirect, exprloc with branches incl. to the end and constants that re-encode shorter; (asm.line) hand-assembled line programs: every standard and extended opcode, special opcodes, mid-sequence set_address, fixed_advance_pc, define_file, non-default header parameters, v5 entry formats with every string form; (asm.cfi) hand-assembled .debug_frame / .eh_frame: every CFA instruction, code/data alignment factors {1,2,4,8,255,256,257,-1,-8,-128,-129}, offsets beyond i32, advance deltas beyond u32, augmentations zR/zP/zL/zS with pcrel/absptr/udata/sdata encodings.  Each x is converted with write::Dwarf::from AND the step-wise convert API (FrameTable::from for both frame sections; ConvertLineProgram::convert, read_row and read_sequence for line programs), written, re-read and dumped; when both steps return Ok the dumps must be equal, and a second conversion of the output must reproduce its dump.  A case is non-trivial when its generated model has >= 2 entries (units), >= 1 row (line programs) or >= 1 FDE (frames) - judged on the generated model only, never on gimli's answer; distinct by digest of the input sections.",
+        rule: "Inputs x: (seeds) the gimli::write-built seed sections of gen::seeds for all 64 encodings; (wmodel) seeded random gimli::write models: 1-3 units, random DIE trees, every writable attribute value kind with boundary values, expressions with forward/backward branches, typed operations and entry references, line programs with random header parameters / files with info / mid-sequence set_address, range and location lists; (asm.info) hand-assembled units (crate::asm) using the forms gimli::write cannot emit: strx*/addrx*/rnglistx/loclistx, every DW_RLE_*/DW_LLE_* kind and the legacy lists with and without a unit base, data/ref forms of every width, implicit_const, indirect, exprloc with branches incl. to the end and constants that re-encode shorter; (asm.line) hand-assembled line programs: every standard and extended opcode, special opcodes, mid-sequence set_address, fixed_advance_pc, define_file, non-default header parameters, v5 entry formats with every string form; (asm.cfi) hand-assembled .debug_frame / .eh_frame: every CFA instruction, code/data alignment factors {1,2,4,8,255,256,257,-1,-8,-128,-129}, offsets beyond i32, advance deltas beyond u32, augmentations zR/zP/zL/zS with pcrel/absptr/udata/sdata encodings.  Each x is converted with write::Dwarf::from AND the step-wise convert API (FrameTable::from for both frame sections; ConvertLineProgram::convert, read_row and read_sequence for line programs), written, re-read and dumped; when both steps return Ok the dumps must be equal, and a second conversion of the output must reproduce its dump.  A case is non-trivial when its generated model has >= 2 entries (units), >= 1 row (line programs) or >= 1 FDE (frames) - judged on the generated model only, never on gimli's answer; distinct by digest of the input sections. Corpus complement (stream `corpus`, props/c12_corpus.rs): three small C/C++ sources are compiled at check time (quick: gcc -gdwarf-4 -O2, clang -gdwarf-5 -O2, gcc -gdwarf-3 -O0, gcc -gdwarf-5 -O2 -fno-asynchronous-unwind-tables [.debug_frame]; thorough: {gcc 12, clang 14} x -gdwarf-{2,3,4,5} x {-O0,-O2}, gcc -gdwarf64, -fdebug-types-section, skeleton files of -gsplit-dwarf builds) and the .debug_* sections of each linked executable go through the same check_dwarf (all conversion paths + second conversion), its .eh_frame / .debug_frame through check_frame; an executable is always non-trivial (it holds several units / FDEs).",
         assumptions: &[
             "Err from conversion or writing is always acceptable (counted per class; low success ratio => inconclusive)",
             "dump normalisations (all documented in mon/dump.rs): root children with DW_TAG_base_type listed first (gimli::write reorders them), file/directory tables compared as de-duplicated sets with files resolved to (path, directory) bytes, end_sequence rows compared by address only, lists compared as resolved ranges (base entries, tombstones, empty ranges invisible), CFI compared per FDE with the CIE inlined, DW_AT_sibling and *_base / dwo bookkeeping attributes omitted",
@@ -36,6 +38,9 @@ pub fn info() -> PropInfo {
             "known finding skipped by a marked constant (SKIP_VLIW_MID_SEQUENCE_SET_ADDRESS): max_ops > 1 is not combined with a mid-sequence DW_LNE_set_address; the stream known.vliw_set_address keeps observing it",
             "input entries have unique attribute names (DebuggingInformationEntry::set replaces a duplicate)",
             "convert_address is the identity (Address::Constant)",
+            "known findings skipped by marked constants in props/c12_corpus.rs: SKIP_IMPLICIT_CONST_FILE_INDEX (gcc -gdwarf-5 executables are only observed by the stream known.implicit_const_file: DW_AT_decl_file encoded as DW_FORM_implicit_const keeps its file index although the file table is renumbered) and SKIP_GNU_LOCVIEWS (gcc corpus objects are compiled with -gno-variable-location-views because Dwarf::from deliberately drops DW_AT_GNU_locviews; stream known.gnu_locviews keeps observing the drop)",
+            "corpus: executables with type units (-fdebug-types-section) and DWARF 5 skeleton files are only observed (ONLY_OBSERVE_UNSUPPORTED_UNIT_KINDS in props/c12_corpus.rs, counters known.unit_kind.*): gimli::write only writes DW_UT_compile units, Dwarf::from leaves .debug_types unconverted and turns type / skeleton units into compile units",
+            "corpus: compilers only supply input (tool failures are inconclusive); the judgement is the same dump equality as for generated inputs, Err is acceptable and counted (class.corpus*.err); .eh_frame is read with the section placed at address 0 before and after conversion",
         ],
         exhaustive_subspaces: &[
             "asm.cfi: every (code factor, data factor) pair of the catalogue x every instruction x {debug_frame v1/v3/v4, eh_frame} (catalogue stream)",
@@ -105,6 +110,13 @@ pub fn info() -> PropInfo {
             "cfi.factor.code.256",
             "cfi.factor.code.255",
             "cfi.err.ValueTooLarge",
+            "corpus.object",
+            "corpus.v3",
+            "corpus.v5",
+            "corpus.converted",
+            "class.corpus.ok",
+            "class.corpus.eh_frame.ok",
+            "class.corpus.debug_frame.ok",
         ],
         run,
     }
@@ -644,6 +656,7 @@ pub fn run(ctx: &mut Ctx) {
     wmodel::run(ctx);
     asmgen::run(ctx);
     cfigen::run(ctx);
+    corpus::run(ctx);
 
     // ---- success-ratio floors (inconclusive, never a violation)
     for (class, floor_pct) in [
